@@ -296,7 +296,7 @@ Definition size_rule (mw : N) (lines : list line) : bool :=
 Definition fprop (MW WA : N) (f : file) : Prop :=
   size_rule MW (f_lines f) = true /\
   Forall (fun l => l_time l - f_created f <= WA) (f_lines f) /\
-  f_lines f <> [].
+  f_lines f <> [] /\ f_reg f = true /\ is_gen (f_name f) = true.
 
 (* [HI fs0 lines MW WA fs]: the directory [fs] consists of the original entries [fs0], of which
    only log files may have been deleted, followed by the files the writer created; these hold
@@ -352,15 +352,15 @@ Qed.
 Lemma fprop_add_line MW WA ev cf : fprop MW WA cf -> f_size cf + l_size ev <= MW ->
   l_time ev - f_created cf <= WA -> fprop MW WA (add_line ev cf).
 Proof.
-  intros (Hs & Ha & Hne) Hsz Hag. unfold fprop, add_line. cbn [f_lines f_created]. splits.
+  intros (Hs & Ha & Hne & Hr & Hg) Hsz Hag. unfold fprop, add_line. cbn [f_lines f_created f_reg f_name]. splits; auto.
   - unfold size_rule. rewrite map_app, sumN_app. cbn [map]. rewrite sumN_cons, sumN_nil.
     apply orb_true_iff. left. apply N.leb_le. unfold f_size in Hsz. lia.
   - apply Forall_app. split; auto.
   - destruct (f_lines cf); discriminate.
 Qed.
-Lemma fprop_first_line MW WA ev nm : fprop MW WA (add_line ev (new_file nm (l_time ev))).
+Lemma fprop_first_line MW WA ev nm : is_gen nm = true -> fprop MW WA (add_line ev (new_file nm (l_time ev))).
 Proof.
-  unfold fprop, add_line, new_file. cbn [f_lines f_created app]. splits.
+  intros Gn. unfold fprop, add_line, new_file. cbn [f_lines f_created f_reg f_name app]. splits; auto.
   - unfold size_rule. apply orb_true_iff. right. reflexivity.
   - constructor; [lia|constructor].
   - discriminate.
@@ -383,7 +383,7 @@ Proof.
       * clear - Kc Hf0. induction Kc; inversion Hf0; subst; constructor; eauto using fprop_kill_rel.
       * constructor; [|constructor]. inversion Hfc; subst. apply fprop_add_line; auto; lia.
   - apply HIc_HI in H. pose proof (HI_kills _ _ _ _ _ _ H K) as H'.
-    apply (HIc_of_snoc _ _ _ _ _ (add_line ev (new_file nm (l_time ev)))) in H'; [exact H'|apply fprop_first_line].
+    apply (HIc_of_snoc _ _ _ _ _ (add_line ev (new_file nm (l_time ev)))) in H'; [exact H'|now apply fprop_first_line].
 Qed.
 
 (* ------------------------------------------------------------------ a whole run *)
@@ -448,7 +448,7 @@ Proof.
   rewrite E. cbn [bind].
   assert (H1 : HIc fs0 (linesA ++ [r_start r]) MW WA rest (add_line (r_start r) (new_file nm (l_time (r_start r))))).
   { pose proof (HI_kills _ _ _ _ _ _ H K) as H'.
-    apply (HIc_of_snoc _ _ _ _ _ (add_line (r_start r) (new_file nm (l_time (r_start r))))) in H'; [exact H'|apply fprop_first_line]. }
+    apply (HIc_of_snoc _ _ _ _ _ (add_line (r_start r) (new_file nm (l_time (r_start r))))) in H'; [exact H'|now apply fprop_first_line]. }
   assert (Hl2 : w_len w < two63) by (rewrite Hl; exact Hs0).
   destruct (run_events_ok m (r_cfg r) fs0 MW WA Cok Hmw Hwa (r_events r) _ _ w (linesA ++ [r_start r]) I Hl2 Hs Hevs H1)
     as (rest' & cf' & w' & E' & I' & Hl' & Hs' & H' & Hlast).
@@ -494,7 +494,7 @@ Lemma every_event_once_in_order m fs0 MW WA rs : hist_ok fs0 MW WA rs ->
 Proof.
   intros [D W]. destruct (history_ok m fs0 MW WA rs [] fs0 (HI_init _ _ _) D W) as (fs' & E & (old & created & -> & K & Hc & Hf) & _).
   exists (old ++ created), old, created. splits; auto.
-  eapply Forall_impl; [|exact Hf]. intros f (_ & _ & H). exact H.
+  eapply Forall_impl; [|exact Hf]. intros f (_ & _ & H & _). exact H.
 Qed.
 
 Lemma file_bounds m fs0 MW WA rs : hist_ok fs0 MW WA rs ->
@@ -507,7 +507,7 @@ Proof.
   intros [D W]. destruct (history_ok m fs0 MW WA rs [] fs0 (HI_init _ _ _) D W) as (fs' & E & (old & created & -> & K & Hc & Hf) & _).
   exists (old ++ created), old, created. splits; auto.
   - symmetry. eapply Kills_length; eauto.
-  - eapply Forall_impl; [|exact Hf]. intros f (Hs & Ha & Hne). split; auto.
+  - eapply Forall_impl; [|exact Hf]. intros f (Hs & Ha & Hne & _). split; auto.
     unfold size_rule in Hs. apply orb_true_iff in Hs as [Hs|Hs].
     + left. apply N.leb_le in Hs. exact Hs.
     + right. apply Nat.leb_le in Hs. destruct (f_lines f) as [|? [|? ?]]; cbn in *; try lia. contradiction.
@@ -610,7 +610,7 @@ Proof.
   destruct I as [Hfs _ A _ _ _ _ _]. splits; auto.
   - unfold history_lines. rewrite map_app, concat_app. cbn [map concat]. rewrite app_nil_r.
     rewrite map_app, concat_app in Hc. cbn in Hc. rewrite app_nil_r in Hc. now rewrite Hc.
-  - apply Forall_app in Hf as [_ Hf]. inversion Hf as [|? ? (_ & _ & Hne) _]; subst. exact Hne.
+  - apply Forall_app in Hf as [_ Hf]. inversion Hf as [|? ? (_ & _ & Hne & _) _]; subst. exact Hne.
 Qed.
 
 End Writer.
